@@ -275,5 +275,7 @@ pub fn spec_c03() -> PropSpec {
         tape_len: 400,
         make: || vec![Box::new(super::c06::Aux(Box::new(ValueOracle::new()))), Box::new(Justify::new())],
         nt_rule: "",
+        engine: "seq",
+        runner: None,
     }
 }
